@@ -146,6 +146,10 @@ class EnumV:
         return f'Enum:{self.ty}[{zs(self.discr)}]{self.payload}'
 
 
+class Uninit:
+    """Content of a `Box::new_uninit()` allocation; the MaybeUninit/ManuallyDrop wrapper fields are transparent."""
+
+
 class Cell:
     def __init__(self, v):
         self.v = v
@@ -418,6 +422,8 @@ class Engine:
                     raise Inconclusive(f'deref of non-reference {cur!r} at {place} in {frame.fn.name}')
             elif kind == 'field':
                 idx = proj[1]
+                if isinstance(cur, (ArcV, Uninit)):
+                    continue    # Unique/NonNull/MaybeUninit/ManuallyDrop wrappers are transparent
                 if isinstance(cur, Agg):
                     container, key = cur, idx
                 elif isinstance(cur, EnumV):
@@ -543,7 +549,11 @@ class Engine:
             a = self.eval_operand(st, depth, rv.args[0])
             return Agg('array', [copy_value(a) for _ in range(int(n.group(1)))], dest_ty)
         if k == 'closure':
-            fields = [self.eval_operand(st, depth, a) for a in rv.args]
+            ops = list(rv.args)
+            need = self.closure_arity(rv.extra)
+            if need is not None and len(ops) < need:
+                ops = self.recover_captures(st, depth, ops, need, rv.extra)
+            fields = [self.eval_operand(st, depth, a) for a in ops]
             return Agg('closure', fields, rv.extra, fn_name=rv.extra)
         if k == 'adt_named':
             path, names = rv.extra
@@ -567,7 +577,8 @@ class Engine:
         raise Inconclusive(f'unsupported rvalue: {rv.extra if rv.kind == "unsupported" else rv.kind}')
 
     def make_adt(self, path, names, vals, dest_ty):
-        clean = re.sub(r'::<[^>]*(?:<[^>]*>[^>]*)*>', '', path)
+        from models import strip_generics
+        clean = strip_generics(path)
         segs = clean.split('::')
         last = segs[-1]
         # enum variant?  `Option::<T>::Some`, `costs::TravelTime::Departure`, `std::cmp::Ordering::Less` ...
@@ -655,6 +666,55 @@ class Engine:
             return BV(zs(t))
         raise Inconclusive(f'binop {op} on {type(a).__name__}/{type(b).__name__}')
 
+    # ---- closure captures
+    def closure_arity(self, closure_text):
+        """Number of captured places the closure body reads (1 + highest field index of its environment parameter)."""
+        try:
+            fn = self.env.closure_fn(self.prog, closure_text)
+        except Inconclusive:
+            return None
+        hi = -1
+        for line in fn.raw:
+            for m in re.finditer(r'\(\(?\*?_1\)?\.(\d+): ', line):
+                hi = max(hi, int(m.group(1)))
+        return hi + 1
+
+    def recover_captures(self, st, depth, ops, need, closure_text):
+        """rustc's MIR pretty-printer lists ONE operand per captured *variable*; with edition-2021 disjoint field capture a
+        variable can contribute several captured places whose operands are then not printed.  They are the temporaries
+        assigned by the statements directly preceding the closure aggregate; they are recovered here and checked against
+        the field types the closure body declares - anything that does not line up is inconclusive."""
+        from mir import Operand, Place
+        block, si = self._cur
+        frame = st.stack[depth]
+        fn = self.env.closure_fn(self.prog, closure_text)
+        want = {}
+        for line in fn.raw:
+            for m in re.finditer(r'\(\(?\*?_1\)?\.(\d+): ([^)]*(?:\([^)]*\)[^)]*)*)\)', line):
+                want.setdefault(int(m.group(1)), m.group(2).strip())
+        prev = []
+        j = si - 1
+        while j >= 0 and len(prev) < need:
+            stmt = block.stmts[j]
+            if stmt.kind != 'assign' or stmt.place.proj:
+                break
+            prev.insert(0, stmt.place.local)
+            j -= 1
+        printed = [o.place.local for o in ops if o.place is not None and not o.place.proj]
+        # find a window of `need` consecutive temporaries that contains the printed operands in order
+        for start in range(0, len(prev) - need + 1):
+            window = prev[start:start + need]
+            it = iter(window)
+            if all(p in it for p in printed):
+                ok = True
+                for idx, local in enumerate(window):
+                    ty = frame.fn.locals.get(local, '').strip()
+                    if idx in want and _norm_ty(want[idx]) != _norm_ty(ty):
+                        ok = False
+                if ok:
+                    return [Operand('move', place=Place(l)) for l in window]
+        raise Inconclusive(f'cannot recover the captured operands of {closure_text} (printed {len(ops)}, body reads {need})')
+
     # ---- branching by decision replay
     def choose(self, st, options):
         """options: list of (condition, payload). Returns the payload of the option taken on this path."""
@@ -717,7 +777,8 @@ class Engine:
             block = fn.blocks.get(bb)
             if block is None:
                 raise Inconclusive(f'missing block bb{bb} in {fn.name}')
-            for stmt in block.stmts:
+            for si, stmt in enumerate(block.stmts):
+                self._cur = (block, si)
                 self.exec_stmt(st, depth, stmt)
             term = block.term
             if term is None:
@@ -821,6 +882,10 @@ class Engine:
         while isinstance(val, RefV):
             self_ref = val
             val = val.load()
+        if isinstance(val, ArcV):
+            val = val.cell.v
+        if isinstance(val, DynV):
+            return self.env.dyn_closure(self, st, val.tag, list(args))
         if isinstance(val, Opaque):
             # a function item used as a callable
             return self.call(st, val.name, list(args))
@@ -853,6 +918,11 @@ class Engine:
             if len(results) > max_paths:
                 raise Inconclusive(f'more than {max_paths} paths')
         return results
+
+
+def _norm_ty(t):
+    t = re.sub(r'\b(?:\w+::)+', '', t)       # drop module paths
+    return re.sub(r'\s+', '', t)
 
 
 class _PathEnds(Exception):
